@@ -1,18 +1,22 @@
 #!/usr/bin/env python3
-"""Prints the markdown table of DESIGN §0.6 from seeded/*/meta.json and (optionally) a seeded_regression.sh log."""
+"""seeded_table.py <quick-depth regression log> [<default-depth regression log> ...]
+Prints the markdown rows + totals of DESIGN §0.6 from seeded/*/meta.json and seeded_regression.sh logs
+(quick depth = VERIF_NO_DEEPEN=1; default = DEEPEN=1, only needed for the changes that are not concrete at quick depth)."""
 import glob, json, os, re, sys
 root = os.path.dirname(os.path.dirname(os.path.abspath(__file__)))
-now = {}
-for p in sys.argv[1:]:
+def load(p):
+    d = {}
     for line in open(p):
-        m = re.match(r"(C\d\d-\d+) rc (\d+) wall \S+ (concrete|tie-only|MISSED)(?: replay (\{.*\}|None))?", line)
+        m = re.match(r"(C\d\d-\d+) rc \d+ wall \S+ (concrete|tie-only|MISSED)", line)
         if m:
-            rp = ""
-            if m.group(4) and m.group(4) != "None":
-                d = eval(m.group(4))
-                if d.get("stuck", 0) + d.get("differs", 0) + d.get("unmapped", 0) > 0:
-                    rp = " + replay"
-            now[m.group(1)] = m.group(3).replace("tie-only", "tie") + rp
+            d[m.group(1)] = m.group(2).replace("tie-only", "tie")
+    return d
+quick = load(sys.argv[1]) if len(sys.argv) > 1 else {}
+deep = {}
+for p in sys.argv[2:]:
+    for k, v in load(p).items():
+        if deep.get(k) != "concrete":
+            deep[k] = v
 def first(c):
     c = c.lower()
     if "missed" in c:
@@ -20,10 +24,18 @@ def first(c):
     if "first run" in c and ("tie guard only" in c or "tie-only" in c or "only the tie" in c or "no-failing-input-found" in c.split("after")[0]):
         return "tie"
     return "concrete"
+cnt = {"first": {}, "quick": {}, "default": {}}
+rows = []
 for d in sorted(glob.glob(os.path.join(root, "seeded", "C*"))):
     sid = os.path.basename(d)
     m = json.load(open(os.path.join(d, "meta.json")))
     what = m["what"].replace("|", "/")
-    if len(what) > 150:
-        what = what[:147] + "…"
-    print(f"| {sid} | {what} | {first(m.get('caught_by',''))} | {now.get(sid, '?')} |")
+    if len(what) > 140:
+        what = what[:137] + "…"
+    f, q = first(m.get("caught_by", "")), quick.get(sid, "?")
+    df = "concrete" if q == "concrete" else deep.get(sid, q)
+    rows.append(f"| {sid} | {m.get('round', '1–2')} | {what} | {f} | {q} | {df} |")
+    for k, v in (("first", f), ("quick", q), ("default", df)):
+        cnt[k][v] = cnt[k].get(v, 0) + 1
+print("\n".join(rows))
+print("TOTALS", json.dumps(cnt))
